@@ -379,6 +379,9 @@ func doHeap(c *core.Ctx, variant string, seed int64, n *core.N) {
 	}
 	g := core.NewG(seed)
 	orig := t.Root()
+	if orig.Nneigh() < 2 {
+		variant = "plain" // Reroot refuses a tip: the original root could not be restored
+	}
 	var inner []*tree.Node
 	for _, x := range t.Nodes() {
 		if x.Nneigh() >= 2 {
@@ -632,6 +635,15 @@ func pickMode(g *core.G, n *core.N) string {
 	return "plain"
 }
 
+// tipRoot hangs the rooted binary tree ro below a new root that is a tip.
+func tipRoot(g *core.G, ro *core.N) *core.N {
+	low := ro.Clone()
+	low.E = core.NewE()
+	low.E.Len = 0.375
+	low.PPos = g.Intn(len(low.Kids) + 1)
+	return &core.N{Name: "r0", Kids: []*core.N{low}}
+}
+
 func heapVariant(g *core.G) string {
 	if g.Chance(0.5) {
 		return "rr"
@@ -708,6 +720,14 @@ func Run(c *core.Ctx) {
 				}
 				ro := rootOnEdge(c.G, un, i)
 				doEnum(c, pickMode(c.G, ro), ro)
+				if c.G.Chance(0.2) {
+					// the root is a tip: (((…),(…)))r0; — a root with one neighbour above the rooted twin
+					tr := tipRoot(c.G, ro)
+					doEnum(c, pickMode(c.G, tr), tr)
+					if c.G.Chance(0.3) {
+						doHeap(c, heapVariant(c.G), int64(c.G.Intn(1<<30)), tr)
+					}
+				}
 				if c.G.Chance(0.3) {
 					doHeap(c, heapVariant(c.G), int64(c.G.Intn(1<<30)), ro)
 				}
@@ -762,6 +782,12 @@ func Run(c *core.Ctx) {
 			}
 			if c.G.Chance(0.4) {
 				base = rootOnEdge(c.G, base, c.G.Intn(3))
+				if c.G.Chance(0.25) {
+					base = tipRoot(c.G, base)
+					for _, k := range base.Kids {
+						k.E.Id = -1
+					}
+				}
 				zeroPPos(base)
 			}
 			return base
